@@ -91,6 +91,11 @@ CHECKS["C19"] = dict(
    text="Generated-input search with a round-trip oracle: generated tables (float with NaN, int, text columns; names in generated order) and images (mixed float/int dtypes) are exported whole or as empty/proper/full subsets with each exporter of the registry that has a reader (CSV, FITS table, VO table, HDF5, gridded FITS), loaded back with the auto-detected factory, and compared by name, order and dtype-appropriate values (selected rows for tables, masked pixels for images); a collection of loaded files saved by reference must restore to the same values.",
    note="Trusted: per-format representability table fixed in pbt/props/c19.py (upper-cased FITS extension names, HDF5 ASCII bytes, 0 as HDF5 integer blank); zero-row tables counted, not asserted.",
    ref="DESIGN.md section 4 C19")
+CHECKS["C02"] = dict(
+   technique="property-based round-trip testing (Hypothesis + exhaustive class sweep): observe(restore(save(x))) == observe(x) and idempotence of a second trip",
+   text="Generated-input search with a round-trip oracle: generated collections (all component kinds, coordinates with units/labels, colliding labels, styles, metadata, links of five kinds, key joins, subset groups over every buildable selection and region class incl. n-ary or, multi-range, n-d/projected ROI states and pretransforms) are saved with data included and restored; a canonical observation (labels, order, values, world values, linked attributes with values, joins, per-dataset masks, styles, metadata, uuid) must be unchanged, a second trip must be idempotent, and a load failure after a successful save is a violation. One minimal session per selection class (bare and inside not/and/or/multi-or) is enumerated exhaustively.",
+   note="Trusted: the observation function in pbt/session.py; each attribute takes part in at most one link (no ambiguous equal-depth routes); save-time exceptions are a permitted loud outcome; include_data=False is covered in C19.",
+   ref="DESIGN.md section 4 C02")
 NOT_APPLICABLE = []
 
 def main():
